@@ -181,6 +181,17 @@ def spectrum(ctx, N, cls_qual=PCOVR, label="PCovR"):
         # R-NESTED: the decomposed matrix and the SVD do not depend on k; k only slices
         bad = [nm for nm, a in zip(("U", "S", "Vt"), r.items) if not _k_only_in_outer_slice(a.term)]
         ctx.ob("R-NESTED", f"{label}._decompose_full: n_components_ enters only through the final prefix slice", not bad, f"components whose value depends on k other than by truncation: {bad}", site)
+    # a fractional request: the same rule in both classes (variance fraction of the eigenvalues)
+    frac = scalar("fraction", 0, 1)
+    I, st = ctx.interp(assume=_assume_int), State()
+    o = ctx.bare_object(I, st, cls, dict(base, n_components_=frac))
+    ctx.call_method(I, st, o, "_decompose_full", mat)
+    I2, s2 = ctx.interp(), State()
+    if label == "PCovR":
+        ref = ctx.call_func(I2, s2, "ref.pcovr_ref.resolved_components", mat, frac)
+    else:
+        ref = ctx.call_func(I2, s2, "ref.pcovr_ref.kernel_resolved_components", mat, frac, base["tol"])
+    ctx.compare("R-SPECTRUM", f"{label}._decompose_full: a fractional n_components keeps the leading eigenvalues carrying that fraction of their sum", N, ctx.attr(st, o, "n_components_"), ref, site)
     # truncated solvers
     for solver in ("arpack", "randomized"):
         I, st = ctx.interp(order=[("K", "<", "N"), ("K", "<", "M"), ("K", ">=", 1)], assume=_assume_int), State()
